@@ -140,6 +140,48 @@ def h_stale(c0: bool, o1: int, o2: int, o3: int, s1: bool, s2: bool, s3: bool, q
             from dvc_data.index.save import md5 as imd5
 
             old_idx = imd5(ibuild(d, fs), name="md5")
+        if QUERY == "race":
+            # the file is rewritten after the hashing code has read it and before it records the result (the caller supplied the
+            # stat taken before the read): whatever gets recorded must not vouch for the new bytes
+            warm = B(c0)  # a (by now outdated) entry for the file exists / the cache has never seen it
+            kind = pick(o1, 0, 2)
+            with NoTracing():
+                if warm:
+                    hash_file(f, fs, NAME, state=st)
+                    data = _flip(data)
+                    env.write(f, data)
+            fired = []
+
+            def rewrite():
+                nonlocal data
+                fired.append(1)
+                if kind == 0:  # same size: only mtime moves
+                    data = _flip(data)
+                    env.write(f, data)
+                elif kind == 1:  # other size
+                    data = data + b"+"
+                    env.write(f, data)
+                else:  # atomic replacement, same size, mtime copied: only the inode moves
+                    info0 = env.stat(f)
+                    data = _flip(data)
+                    env.replace(f, data)
+                    _set_mtime(env, f, info0["mtime"])
+
+            try:
+                env.on_read_once(rewrite)
+                hash_file(f, fs, NAME, state=st, info=fs.info(f))
+                _, hi2 = hash_file(f, fs, NAME, state=st)
+            except HarnessGap:
+                raise
+            except Exception as e:  # noqa: BLE001
+                violation("query-raised", ("race", f"{type(e).__name__}: {e}"))
+                return True
+            if not fired:
+                raise HarnessGap("the rewrite hook did not fire")
+            if hi2.value != _fresh(data):
+                violation("stale-hash-served", ("rewritten-while-hashing", kind, hi2.value, _fresh(data)))
+            journal({"query": "race", "warm": warm, "kind": kind}, nontrivial=True)
+            return True
         prime()
         poison()
         if QUERY != "update":
